@@ -31,6 +31,7 @@ func TestMain(m *testing.M) {
 	vrt.InitRapid()
 	vrt.RegisterReplay(suite, "get", Run)
 	vrt.RegisterReplay(suite, "in", RunIn)
+	vrt.RegisterReplay(suite, "count", RunCount)
 	suite.Register(classifiers...)
 	vrt.Main(m, suite)
 }
@@ -451,7 +452,43 @@ func RunIn(cs InCase, c *vrt.Ctx) {
 	}
 }
 
+// CountCase: count() of a path that starts at the root, inside a filter: the root is the document,
+// not the element (as for every other operand that starts with $), so the count is the same for
+// every element - the filter selects all elements or none, and all of them when n is the number
+// of nodes the path selects in the document.
+type CountCase struct {
+	N int `json:"n"`
+}
+
+func RunCount(cs CountCase, c *vrt.Ctx) {
+	data := inData()
+	x, err := jp.ParseString(fmt.Sprintf("$.items[?(count($.pool[*]) == %d)].id", cs.N))
+	if err != nil {
+		c.DontCare("path does not parse")
+		return
+	}
+	nodes := len(jp.MustParseString("$.pool[*]").Get(data))
+	items := len(jp.MustParseString("$.items[*]").Get(data))
+	var got []any
+	if pv, stack := vrt.Catch(func() { got = x.Get(data) }); pv != nil {
+		c.Fail("panic", "jp.Expr.Get", fmt.Sprintf("%v at %s", pv, stack))
+		return
+	}
+	c.NonTrivial()
+	want := 0
+	if cs.N == nodes {
+		want = items
+	}
+	if len(got) != want {
+		c.Fail("wrong-selection", "jp.Expr.Get", fmt.Sprintf("path %s on %s: %d elements selected, want %d ($.pool[*] selects %d nodes in the document)", x.String(), canon.String(data, canon.Value), len(got), want, nodes))
+	}
+}
+
 func TestEnumInOperator(t *testing.T) {
+	for n := 0; n <= 6; n++ {
+		vrt.Eval(suite, "count", CountCase{N: n}, RunCount)
+	}
+
 	paths := []string{"$.items[?(@.x in @.l)].id", "$.items[?(@.x in $.pool)].id", "$.items[?(@.x in [1, 2, 3, 'b', 1.5])].id", "$.items[?(!(@.x in @.l))].id", "$.items[?(@.x in @.l || @.x in $.pool)].id"}
 	n := 0
 	for _, pt := range paths {
